@@ -518,6 +518,8 @@ async fn dht_handler_direct(mon: &Monitor, rng: &mut Rng, rounds: u64) {
 
 fn main() {
     let mon = Monitor::new("C05", "exploration");
+    // supplementary sanitizer lanes (thorough tier): built and run alongside the behavioural workload, joined before the verdict
+    let lanes = checks::lanes::start(&mon, &[("asan", "c05", "240"), ("memcheck", "c05", "240")]);
     mon.set_rule("case = one input to one entry point (frame parser, whole receive path, DHT handler, engine handler, record / envelope decoders): random bytes or a structure-aware mutation (truncate, bit flip, 2^32/2^64 varint, enum tag, 64KiB±1 padding, splice, nesting, window-edge timestamps, claimed sender) of a valid message of every kind; distinct by (entry point, mutation class, outcome class, size/timestamp class)");
     mon.assume("allocation bound is linear with a generous constant (16*len + 4 MiB): serde's cautious pre-allocation fits, a trusted 2^32-byte length prefix does not");
     mon.assume("timestamp-window verdicts are made only when the clock read before and after the call agree");
@@ -530,6 +532,6 @@ fn main() {
         rt.block_on(receive_path(&mon, &mut rng, rounds / 2 + 1));
     });
     // supplementary sanitizer lane (thorough): the same decoder workload under AddressSanitizer
-    checks::lanes::run(&mon, "asan", "c05", "60");
+    checks::lanes::join(&mon, lanes);
     mon.finish();
 }
